@@ -100,6 +100,8 @@ type acctCluster struct {
 	addr    string // listener address
 	up      *upServer
 	outcome string // model outcome of one dial
+	cfg     v2.Cluster
+	hosts   []v2.Host
 }
 
 type acctEnv struct {
@@ -128,7 +130,7 @@ func newImmServer() (*immServer, error) {
 	return &immServer{ln: ln}, nil
 }
 
-func (ae *acctEnv) add(kind string, maxc int, variant string, idle time.Duration) (*acctCluster, error) {
+func (ae *acctEnv) add(kind string, maxc int, variant string, idle time.Duration, connectTimeout ...time.Duration) (*acctCluster, error) {
 	e := ae.e
 	name := fmt.Sprintf("acct-%s-m%d%s", kind, maxc, variant)
 	c := &acctCluster{name: name, kind: kind, maxc: maxc}
@@ -174,6 +176,10 @@ func (ae *acctEnv) add(kind string, maxc int, variant string, idle time.Duration
 	case "nohost":
 		c.tries = 0
 	}
+	if len(connectTimeout) > 0 {
+		cc.ConnectTimeout = &api.DurationConfig{Duration: connectTimeout[0]}
+	}
+	c.cfg, c.hosts = cc, hosts
 	if err := e.cm.AddOrUpdateClusterAndHost(cc, hosts); err != nil {
 		return nil, err
 	}
@@ -218,6 +224,20 @@ func initAcctEnv() (*acctEnv, error) {
 		return nil, err
 	}
 	if _, err := ae.add("imm", 2, "-natural", 0); err != nil { // the same race without any held callback (finder only)
+		return nil, err
+	}
+	for _, m := range []int{0, 2} { // many sessions opening and closing at the same time (finder only)
+		if _, err := ae.add("acc", m, "-storm", 0); err != nil {
+			return nil, err
+		}
+	}
+	for i, ct := range []time.Duration{25 * time.Microsecond, 70 * time.Microsecond, 180 * time.Microsecond} {
+		// connect time-out in the range of a loopback dial: time-out and success both happen
+		if _, err := ae.add("acc", 2, fmt.Sprintf("-edge%d", i), 0, ct); err != nil {
+			return nil, err
+		}
+	}
+	if _, err := ae.add("acc", 0, "-upd", 0); err != nil { // max_connections changed while connections are open
 		return nil, err
 	}
 	e.handler.StartListeners(context.Background())
@@ -370,6 +390,56 @@ type acctRun struct {
 	hooks    *acctHooks
 	rep      map[string]interface{}
 	kind     string
+	stopSamp chan struct{}
+	sampDone chan struct{}
+	minObs   acctObs // smallest value of each counter seen by the sampler while the history ran
+}
+
+// sample polls the counters while the history runs: "never negative in between".
+func (ar *acctRun) sample() {
+	defer close(ar.sampDone)
+	for {
+		select {
+		case <-ar.stopSamp:
+			return
+		default:
+		}
+		o := ar.ae.read(ar.c, ar.downBase)
+		if o.Res < ar.minObs.Res {
+			ar.minObs.Res = o.Res
+		}
+		if o.Host < ar.minObs.Host {
+			ar.minObs.Host = o.Host
+		}
+		if o.Clu < ar.minObs.Clu {
+			ar.minObs.Clu = o.Clu
+		}
+		if o.Down < ar.minObs.Down {
+			ar.minObs.Down = o.Down
+		}
+		time.Sleep(40 * time.Microsecond)
+	}
+}
+
+func (ar *acctRun) stopSampler(known string) {
+	if ar.stopSamp == nil {
+		return
+	}
+	close(ar.stopSamp)
+	<-ar.sampDone
+	ar.stopSamp = nil
+	tag := ar.c.kind + ":" + ar.kind
+	if known != "" {
+		tag = known
+	}
+	m := ar.minObs
+	ar.rep["smallest_values_seen_while_running"] = m
+	if m.Res < 0 {
+		ar.run.Fail("l4:connections-resource-negative:transient:"+tag, fmt.Sprintf("cluster %s: Connections().Cur() was %d at some moment of the history", ar.c.name, m.Res), ar.rep)
+	}
+	if m.Host < 0 || m.Clu < 0 || m.Down < 0 {
+		ar.run.Fail("l4:gauge-negative:transient:"+tag, fmt.Sprintf("cluster %s: host/cluster upstream_connection_active / handler connections were %d/%d/%d at some moment of the history", ar.c.name, m.Host, m.Clu, m.Down), ar.rep)
+	}
 }
 
 func (ar *acctRun) live() int {
@@ -523,6 +593,8 @@ func newAcctRun(ae *acctEnv, run *Run, c *acctCluster, kind string) *acctRun {
 	ar.rep = map[string]interface{}{"part": "l4-accounting", "cluster": c.name, "cluster_kind": c.kind, "max_connections": c.maxc, "history": kind}
 	setAcctHooks(ar.hooks)
 	ar.downBase = int64(numConns(ae.e))
+	ar.stopSamp, ar.sampDone = make(chan struct{}), make(chan struct{})
+	go ar.sample()
 	return ar
 }
 
@@ -541,6 +613,11 @@ func c10(args []string) int {
 	finish := func(ar *acctRun, inShard bool) {
 		ar.closeAll()
 		setAcctHooks(nil)
+		known := ""
+		if k, ok := ar.rep["known_tag"].(string); ok {
+			known = k
+		}
+		ar.stopSampler(known)
 		// let MOSN finish closing before the next history measures its base line
 		ar.ae.readStable(ar.c, ar.downBase)
 		var acts []string
@@ -587,7 +664,17 @@ func c10(args []string) int {
 					continue
 				}
 				s := ar.sess[liveIdx[r.Intn(len(liveIdx))]]
-				switch r.Intn(3) {
+				switch r.Intn(4) {
+				case 3: // both peers close at the same moment: whichever close event MOSN handles first ends the session
+					var wg sync.WaitGroup
+					wg.Add(2)
+					go func() { defer wg.Done(); s.cli.Close() }()
+					go func() { defer wg.Done(); s.up.c.Close() }()
+					wg.Wait()
+					s.up.waitDone(acctLimit)
+					s.waitCliEOF(acctLimit)
+					s.ended = true
+					ar.record("both-close", s.idx, []string{fmt.Sprintf("UpClose %d%%nat", s.idx)}, "")
 				case 0:
 					s.cli.Close()
 					s.up.waitDone(acctLimit)
@@ -811,6 +898,209 @@ func c10(args []string) int {
 		}
 		ar.rep["leaked_without_any_hold"] = ae.read(c, 0).Res
 		ar.record("open-upstream-closes-at-once-x-many", 0, nil, "close-before-connect-returns")
+		finish(ar, false)
+	}
+
+	// ---- (7) the client closes while the upstream dial of its session is still in flight (held in the factory)
+	for _, m := range []int{0, 1, 2} {
+		for rep := 0; rep < run.N(1, 8); rep++ {
+			c := ae.clusters[fmt.Sprintf("acct-acc-m%d-conc", m)]
+			ar := newAcctRun(ae, run, c, "client-close-during-connect")
+			ar.hooks.mu.Lock()
+			ar.hooks.gate, ar.hooks.arrived = make(chan struct{}), make(chan struct{}, 8)
+			gate := ar.hooks.gate
+			ar.hooks.mu.Unlock()
+			s := &acctSess{idx: 0}
+			ar.sess = append(ar.sess, s)
+			cli, err := net.DialTimeout("tcp", c.addr, 2*time.Second)
+			if err == nil {
+				s.cli = cli
+				s.watch()
+				select {
+				case <-ar.hooks.arrived:
+				case <-time.After(acctLimit):
+					run.Fail("l4:stalled:gate", "the session did not reach the connection factory", ar.rep)
+				}
+				cli.Close() // MOSN is still dialling: the downstream read loop has not been started yet
+			}
+			close(gate)
+			ar.hooks.mu.Lock()
+			ar.hooks.gate = nil
+			ar.hooks.mu.Unlock()
+			// the dial succeeds, the session is set up, the read loop starts and sees the close at once
+			select {
+			case u := <-c.up.accept:
+				s.up = u
+				u.waitDone(acctLimit)
+			case <-time.After(acctLimit):
+				run.Fail("l4:stalled:open", "no upstream connection after the held dial", ar.rep)
+			}
+			s.ended = true
+			ar.record("open-then-client-close-during-connect", 0, []string{"Accept", "Admit 0%nat", "Dial 0%nat ConnOk", "DownClose 0%nat"}, "")
+			finish(ar, true)
+		}
+	}
+
+	// ---- (8) connect time-out in the range of the dial time: time-outs and successes mixed, each classified by what happened
+	for i := 0; i < 3; i++ {
+		c := ae.clusters[fmt.Sprintf("acct-acc-m2-edge%d", i)]
+		ar := newAcctRun(ae, run, c, "borderline-connect-timeout")
+		nOK, nTO := 0, 0
+		for k := 0; k < run.N(6, 40); k++ {
+			s := &acctSess{idx: len(ar.sess)}
+			ar.sess = append(ar.sess, s)
+			cli, err := net.DialTimeout("tcp", c.addr, 2*time.Second)
+			if err != nil {
+				s.ended = true
+				continue
+			}
+			s.cli = cli
+			s.watch()
+			cli.Write([]byte{'x'})
+			// established <=> the byte arrives at an upstream connection; failed <=> MOSN closes the client connection
+			var cands []*upConn
+			dl := time.Now().Add(acctLimit)
+			for s.up == nil && time.Now().Before(dl) {
+				select {
+				case u := <-c.up.accept:
+					cands = append(cands, u)
+				case <-s.cliEOF:
+					dl = time.Now()
+				case <-time.After(300 * time.Microsecond):
+				}
+				for _, u := range cands {
+					if len(u.received()) > 0 {
+						s.up = u
+					}
+				}
+			}
+			for _, u := range cands { // connections the kernel completed but the dialler had already given up on
+				if u != s.up {
+					u.c.Close()
+				}
+			}
+			outcome := "TimedOut"
+			if s.up != nil {
+				s.estab, outcome = true, "ConnOk"
+				nOK++
+			} else {
+				s.waitCliEOF(acctLimit)
+				s.ended = true
+				nTO++
+			}
+			ar.record("open("+outcome+")", s.idx, []string{"Accept", fmt.Sprintf("Admit %d%%nat", s.idx), fmt.Sprintf("Dial %d%%nat %s", s.idx, outcome)}, "")
+			if s.estab {
+				s.cli.Close()
+				s.up.waitDone(acctLimit)
+				s.ended = true
+				ar.record("client-close", s.idx, []string{fmt.Sprintf("DownClose %d%%nat", s.idx)}, "")
+			}
+		}
+		ar.rep["connected"], ar.rep["timed_out"] = nOK, nTO
+		run.Sum.Distribution["l4:borderline:connected"] += nOK
+		run.Sum.Distribution["l4:borderline:timed-out"] += nTO
+		finish(ar, true)
+	}
+
+	// ---- (9) many sessions opening, relaying and closing at the same time (finder only: zero at idle, never negative)
+	for _, m := range []int{0, 2} {
+		c := ae.clusters[fmt.Sprintf("acct-acc-m%d-storm", m)]
+		ar := newAcctRun(ae, run, c, "storm")
+		if m > 0 {
+			ar.rep["known_tag"] = "overlapping-admissions" // the threshold is not what this history checks
+		}
+		stopUp := make(chan struct{})
+		var upWG sync.WaitGroup
+		upWG.Add(1)
+		go func() { // upstream side: half of the connections are closed by the upstream peer after a moment
+			defer upWG.Done()
+			k := 0
+			for {
+				select {
+				case u := <-c.up.accept:
+					k++
+					if k%2 == 0 {
+						go func(u *upConn) { time.Sleep(time.Duration(200+50*k) * time.Microsecond); u.c.Close() }(u)
+					} else {
+						go func(u *upConn) { u.waitDone(acctLimit); u.c.Close() }(u)
+					}
+				case <-stopUp:
+					return
+				}
+			}
+		}()
+		var wg sync.WaitGroup
+		for g := 0; g < 6; g++ {
+			wg.Add(1)
+			go func(g int) {
+				defer wg.Done()
+				for k := 0; k < run.N(3, 15); k++ {
+					cli, err := net.DialTimeout("tcp", c.addr, 2*time.Second)
+					if err != nil {
+						continue
+					}
+					cli.Write([]byte("storm"))
+					if (g+k)%2 == 0 {
+						time.Sleep(time.Duration(100*(g+1)) * time.Microsecond)
+						cli.Close()
+					} else {
+						// wait a moment for the upstream peer's close (half of them close), then close anyway
+						cli.SetReadDeadline(time.Now().Add(3 * time.Millisecond))
+						io.Copy(io.Discard, cli)
+						cli.Close()
+					}
+				}
+			}(g)
+		}
+		wg.Wait()
+		time.Sleep(2 * time.Millisecond)
+		close(stopUp)
+		upWG.Wait()
+		ar.record("storm-over", 0, nil, "")
+		finish(ar, false)
+	}
+
+	// ---- (10) max_connections is changed while connections are open (finder only)
+	{
+		c := ae.clusters["acct-acc-m0-upd"]
+		ar := newAcctRun(ae, run, c, "max-connections-update")
+		ar.rep["known_tag"] = "max-connections-changed-at-run-time"
+		s1 := ar.openSession()
+		s2 := ar.openSession()
+		ar.record("open-two-unlimited", 0, nil, "")
+		upd := func(m int) {
+			cc := c.cfg
+			cc.CirBreThresholds = v2.CircuitBreakers{}
+			if m > 0 {
+				cc.CirBreThresholds = v2.CircuitBreakers{Thresholds: []v2.Thresholds{{MaxConnections: uint32(m)}}}
+			}
+			if err := ae.e.cm.AddOrUpdateClusterAndHost(cc, c.hosts); err != nil {
+				run.Fail("l4:cluster-update-failed", err.Error(), ar.rep)
+			}
+			c.maxc = m
+		}
+		upd(3)
+		ar.record("max_connections:0->3", 0, nil, "max-connections-changed-at-run-time")
+		for _, s := range []*acctSess{s1, s2} {
+			if s.estab {
+				s.cli.Close()
+				s.up.waitDone(acctLimit)
+				s.ended = true
+			}
+		}
+		ar.record("close-both", 0, nil, "max-connections-changed-at-run-time")
+		s3 := ar.openSession()
+		ar.record("open-limited", 0, nil, "max-connections-changed-at-run-time")
+		upd(0)
+		if s3.estab {
+			s3.cli.Close()
+			s3.up.waitDone(acctLimit)
+			s3.ended = true
+		}
+		upd(3)
+		ar.record("3->0,close,0->3", 0, nil, "max-connections-changed-at-run-time")
+		upd(0)
+		c.maxc = 0
 		finish(ar, false)
 	}
 	sh.Close()
